@@ -100,8 +100,10 @@ class Unit:
                 parts.append(el.split(' ', 1)[1].strip())
         return '::'.join(parts)
 
-    def get_item(self, spec):
+    def get_item(self, spec, constfn=False):
         file, *path = [s.strip() for s in spec.split(' :: ')]
+        if constfn and path[-1].startswith('fn '):
+            path[-1] = 'const ' + path[-1][3:]
         # re-join path elements that were split inside e.g. 'impl From<u32> for ContextId'
         try:
             it = self.rf(file).get(path)
@@ -160,11 +162,18 @@ class Unit:
         self.items.append({'label': label, 'file': file, 'kind': it.kind, 'sha': sha, 'contracted': False})
 
     def emit_fn(self, spec, flags, sections):
-        file, path, it = self.get_item(spec)
+        file, path, it = self.get_item(spec, 'constfn' in flags)
         label = self.label_of(path)
         raw = it.text
         sha = hashlib.sha256(raw.encode()).hexdigest()[:16]
         text = self.apply_rewrites(raw)
+        if 'constfn' in flags:
+            # R13: `pub const NAME: T = E;` -> `pub fn NAME() -> T { E }` (uses rewritten to NAME())
+            mt = re.match(r'(?s)\s*(pub(?:\s*\([^)]*\))?\s+)?const\s+(\w+)\s*:\s*(.*?)=\s*(.*);\s*$', text)
+            if not mt:
+                raise WeaveError('%s: constfn flag on a non-const item' % spec)
+            text = '%sfn %s() -> %s {\n %s \n}' % (mt.group(1) or '', mt.group(2), mt.group(3).strip(), mt.group(4))
+            self.rewrite_counts['R13'] = self.rewrite_counts.get('R13', 0) + 1
         if 'mutself' in flags:
             # R10: fn f(mut self, ..) {B}  ->  fn f(self, ..) { let mut self_ = self; B[self -> self_] }
             mm = mask(text)
@@ -369,11 +378,46 @@ class Unit:
                     i += 1
                 if i >= len(src):
                     raise WeaveError('unterminated //@fn %s' % spec)
+                for fl in flags:
+                    if fl.startswith('from='):
+                        imported = self.import_contract(fl[5:], spec)
+                        for k in ('requires', 'ensures'):
+                            if k in imported and k not in sections:
+                                sections[k] = imported[k]
+                        self.trusted.append('imported contract: %s — proved in unit %s, assumed here (external_body)' % (spec.split(' :: ', 1)[1], fl[5:]))
                 self.emit_fn(spec, flags, sections)
             else:
                 raise WeaveError('unknown directive %s' % cmd)
             i += 1
         return '\n'.join(self.out.lines) + '\n'
+
+    def import_contract(self, unit, spec):
+        """requires/ensures of the same //@fn in another unit template"""
+        src = open(os.path.join(self.verif, 'units', unit + '.vu')).read().split('\n')
+        want = ' '.join(spec.split())
+        i = 0
+        while i < len(src):
+            t = src[i].strip()
+            if t.startswith('//@fn '):
+                sp, _ = self.split_flags(t[6:].strip())
+                if ' '.join(sp.split()) == want:
+                    sections = {}
+                    cur = None
+                    i += 1
+                    while src[i].strip() != '//@end':
+                        u = src[i].strip()
+                        if u.startswith('//@'):
+                            cur = u[3:].strip().split(' ')[0]
+                            if cur in ('requires', 'ensures'):
+                                sections[cur] = []
+                            else:
+                                cur = None
+                        elif cur and u and not u.startswith('//'):
+                            sections[cur].append((i + 1, src[i]))
+                        i += 1
+                    return sections
+            i += 1
+        raise WeaveError('imported contract not found: %s in unit %s' % (spec, unit))
 
     @staticmethod
     def split_flags(arg):
